@@ -358,6 +358,9 @@ fn corrupt(r: &mut Rng, s: &mut Vec<u8>, bounds: &[usize]) {
 
 pub fn gen(tier: &str, rng: &mut Rng, out: &mut Vec<String>) {
     let thorough = tier == "thorough";
+    // (f) end to end: the real receive loop of connect_internal (peer.rs) over a loopback socket, payloads arriving in many
+    // paced fragments (c12.session requests; everything else in this file drives a line-for-line copy of that loop)
+    crate::c12::gen_fragmented(&mut rng.fork(), out, if thorough { 200 } else { 30 });
     let magic = MAGIC;
     let ser = |m: Message| { let mut v = Vec::new(); m.write(&mut v, magic).unwrap(); v };
 
